@@ -11,7 +11,7 @@ import (
 func init() {
 	register(&Spec{
 		ID:          "C09",
-		Loads:       []LoadSpec{{Patterns: []string{"./htlcswitch", "./graph/db/models"}}},
+		Loads:       []LoadSpec{{Patterns: []string{"./htlcswitch", "./graph/db/models", "./routing/localchans"}}},
 		Explanation: "Decides that the accepting return of the forwarding check is dominated by every advertised-policy comparison with the documented operands (incoming >= outgoing amount; actual fee less the outbound fee >= inbound fee on (out + outbound fee), the overflow-free form of the fee test; expiry gap >= time-lock delta and <= maximum; outgoing expiry beyond height + reject delta and within the maximum, both sums computed in 64 bits; amount within [min_htlc, max_htlc] and bandwidth), that each BOLT-4 failure is constructed only below the predicate it names, that the two fee formulas, interpreted on boundary values, agree with unbounded-integer arithmetic wherever the fee is payable and saturate without wrapping beyond, that every unsigned subtraction in these functions is below the matching >= guard or on signed values, that no sum of the check is computed in 32 bits, that the link's policy is read under its lock and one forwarding decision uses one snapshot of it, that a policy update reaches links of both indexes, that the amount the policy is checked on is the amount of the add that is sent, and that the switch hands an HTLC only to links whose check returned nil.",
 		NotDecided: []string{
 			"agreement with unbounded-integer arithmetic outside the sampled boundary values of the fee formulas, and for fees beyond the total supply (a saturated outbound fee combined with an inbound discount)",
